@@ -277,12 +277,15 @@ func ruleR202(p *Program, r *Report) {
 		}
 	}
 	r.Check(okParse, "R20.2", name, "only 'no integrity field' lines are skipped", p.Pos(parse.Pos()), "other parse errors are returned", "a line that fails to parse for another reason than a missing integrity field is skipped instead of failing verification")
-	// new chain handling
-	okChain := false
+	// new chain handling: the error for "a new chain although the previous one was not finished" depends on the
+	// current entry being a chain start and on state of the verifier (lastVerifiedEntry, or flags kept instead)
+	// that (a) is written only after an entry verified, (b) is written for every verified entry before the next
+	// one is looked at, and (c) reflects whether that entry was an end-of-chain entry.
+	okChain, whyChain := false, "no return of ErrMissingEndOfChain that depends on the entry being a chain start"
 	errMissing := p.Lookup("logging.ErrMissingEndOfChain")
 	for _, ret := range returnsGlobalErr(fn, errMissing) {
-		// control dependent on IsNewChain and on IsEndChain of lastVerifiedEntry
 		depNew, depEnd := false, false
+		state := map[string]bool{}
 		for _, b := range fn.Blocks {
 			if !b.Dominates(ret.Block()) || len(b.Instrs) == 0 {
 				continue
@@ -290,19 +293,91 @@ func ruleR202(p *Program, r *Report) {
 			if i, isIf := b.Instrs[len(b.Instrs)-1].(*ssa.If); isIf {
 				for v := range backClosure(i.Cond) {
 					if _, f, ok := fieldOfLoad(v); ok {
-						if f == "IsNewChain" {
+						switch f {
+						case "IsNewChain":
 							depNew = true
-						}
-						if f == "IsEndChain" {
+						case "IsEndChain":
 							depEnd = true
+						}
+						if u, isU := v.(*ssa.UnOp); isU {
+							if fa, isFA := u.X.(*ssa.FieldAddr); isFA && len(fn.Params) > 0 && fa.X == ssa.Value(fn.Params[0]) {
+								state[f] = true
+							}
 						}
 					}
 				}
 			}
 		}
-		okChain = depNew && depEnd
+		// only what the loop itself writes is state (the parser, the key and the calculator are configuration)
+		for f := range state {
+			if len(recvFieldStores(fn, f)) == 0 {
+				delete(state, f)
+			}
+		}
+		if !depNew {
+			continue
+		}
+		if len(state) == 0 {
+			whyChain = "the test for an unfinished chain reads no state that the verifier writes while it goes through the entries"
+			continue
+		}
+		okChain, whyChain = true, ""
+		for f := range state {
+			stores := recvFieldStores(fn, f)
+			storeBlk := map[*ssa.BasicBlock]bool{}
+			for _, st := range stores {
+				storeBlk[st.Block()] = true
+				if equal == nil || !equal.Dominates(st.Block()) {
+					okChain, whyChain = false, "the verifier state "+f+" is written on a path where the tag was not compared equal"
+				}
+				// (c) the value, or the branch the store sits on, reflects IsEndChain
+				for v := range backClosure(st.Val) {
+					if _, ff, ok := fieldOfLoad(v); ok && ff == "IsEndChain" {
+						depEnd = true
+					}
+					if v == ssa.Value(parsed) {
+						// the entry itself is kept: its IsEndChain is read at the test (checked above)
+					}
+				}
+				for _, b := range fn.Blocks {
+					if i, isIf := b.Instrs[len(b.Instrs)-1].(*ssa.If); isIf && b.Dominates(st.Block()) && equal != nil && equal.Dominates(b) {
+						for v := range backClosure(i.Cond) {
+							if _, ff, ok := fieldOfLoad(v); ok && ff == "IsEndChain" {
+								depEnd = true
+							}
+						}
+					}
+				}
+			}
+			// (b) from the verified edge the next iteration is not reached without writing the state
+			if equal != nil {
+				seen := map[*ssa.BasicBlock]bool{}
+				var dfs func(b *ssa.BasicBlock) bool
+				dfs = func(b *ssa.BasicBlock) bool {
+					if seen[b] || storeBlk[b] {
+						return false
+					}
+					seen[b] = true
+					for _, sx := range b.Succs {
+						if sx.Dominates(b) && sx.Dominates(equal) {
+							return true // back edge to the loop that contains the comparison
+						}
+						if dfs(sx) {
+							return true
+						}
+					}
+					return false
+				}
+				if dfs(equal) {
+					okChain, whyChain = false, "some verified entry (for example one that starts a chain) reaches the next entry without the verifier state "+f+" being written: a duplicated or re-inserted chain start after it is not noticed"
+				}
+			}
+		}
+		if okChain && !depEnd {
+			okChain, whyChain = false, "the state the test reads does not reflect whether the previous entry ended its chain"
+		}
 	}
-	r.Check(okChain, "R20.2", name, "a new chain after an unfinished one is an error", p.Pos(fn.Pos()), "IsNewChain && last != nil && !last.IsEndChain -> ErrMissingEndOfChain", "a chain that was cut short before the next chain starts is accepted: trailing entries of a chain can be deleted")
+	r.Check(okChain, "R20.2", name, "a new chain after an unfinished one is an error", p.Pos(fn.Pos()), "chain start && previous verified entry did not end its chain -> ErrMissingEndOfChain; the state is written for every verified entry, after the comparison", whyChain+": trailing entries of a chain can be deleted, or a chain start duplicated, without verification failing")
 	// reset on new chain with the verifier's key, before the calculation
 	okReset := loadsRecvField(plainArgs(reset)[0], "cryptoKey") && reaches(reset.Block(), calc.Block(), nil)
 	depNew := false
